@@ -97,7 +97,11 @@ def rule_scan_init(ctx, m, only=None):
                 acc, op, elem = sc
                 if not any(t in f.locals.get(acc, '') for t in ('seq_t', 'double', 'float')):
                     continue      # integer scans (lengths, indices) have natural bounds; the rule is about value scans
-                init = _last_assign_before(block, i, acc)
+                init = None
+                for blk, bi in reversed(_CHAINS.get(id(loop), ((block, i),))):
+                    init = _last_assign_before(blk, bi, acc)
+                    if init is not None or acc in assigned_vars(blk[:bi]):
+                        break
                 if init is None:
                     continue
                 n += 1
@@ -118,12 +122,16 @@ def rule_scan_init(ctx, m, only=None):
     return n
 
 
-def _all_loops(stmts):
+def _all_loops(stmts, chain=()):
     for i, s in enumerate(stmts):
         if s.k in ('for', 'loop', 'while'):
+            _CHAINS[id(s)] = chain + ((stmts, i),)
             yield stmts, i, s
         for b in sub_blocks(s):
-            yield from _all_loops(b)
+            yield from _all_loops(b, chain + ((stmts, i),))
+
+
+_CHAINS = {}
 
 
 def _scan_pattern(loop):
